@@ -8,6 +8,22 @@ ALL = [f'C{i:02d}' for i in range(1, 21)]
 
 # property -> (level text, level note, technique, design section)
 CHECKS = {
+    'C20': (
+        'Lean 4 theorems over all schedules / fault sequences: Collector — in every state reachable by any order of job completions at most '
+        '`concurrency` jobs are in flight, every started job is delivered or still running, no job is known (hence delivered) twice '
+        '(C20_collector_invariants, induction over completions with a permutation ledger), when nothing runs the delivered jobs are exactly the '
+        'started ones (C20_collector_exactly_once), and once the sample budget is used up no job starts (C20_collector_budget); stream client — '
+        'for every sequence of stream breaks before / after the server processed a request and server replies the job is created at most once '
+        '(C20_job_created_at_most_once), the retry table answers every error the server can give (C20_retry_table_total) and from any request in '
+        'flight three fault-free exchanges return the result (C20_client_converges). T1: _get_retry_request_or_raise tabulated on every error '
+        'code x request kind and kernel-decided equal to the Lean table. T2: the real Collector.collect driven in a thread by a fake sampler '
+        '(every completion order of 3-4 jobs + random schedules with failures and budgets), the real StreamManager on its AsyncioExecutor against a '
+        'scripted fake server through all fault scripts up to length 3/4, ResponseDemux under every publish order.',
+        'Trusted: Lean kernel; harness + driver; duet / asyncio semantics; thread races inside one step, real gRPC transport, engine_client / '
+        'engine_job polling paths and cancellation are outside the model (partial).',
+        'Lean 4 proof (invariants by induction over schedules and fault sequences) + kernel-decided retry table + trace correspondence',
+        'DESIGN.md §3 C20',
+    ),
     'C12': (
         'Lean 4 specification of unrolling nested circuit operations (repetitions incl. 0 and negative, qubit maps, key-name maps, repetition '
         'ids and parent paths as key scopes, binding of classical conditions) with theorems: the scoping pass neither drops, duplicates nor '
